@@ -78,6 +78,7 @@ type PeerOpts struct {
 	WillRetain     bool
 	WillMsg        []byte
 	NoWillReply    bool
+	AckDelay       time.Duration // REGACK / PUBACK / PUBREC / PUBCOMP are sent this much later (virtual time)
 }
 
 // peerHandler returns the automatic responder of the scripted client: it
@@ -100,22 +101,29 @@ func peerHandler(o PeerOpts) func(s *world.Session, p *snref.Pkt, raw []byte) {
 		if o.NoAutoAck {
 			return
 		}
+		reply := func(q *snref.Pkt) {
+			if o.AckDelay > 0 {
+				time.AfterFunc(o.AckDelay, func() { s.SNSendP(q) })
+				return
+			}
+			s.SNSendP(q)
+		}
 		switch p.Type {
 		case snref.REGISTER:
 			rc := o.RegackRC
 			if o.RejectRegister != nil && o.RejectRegister(p.Name) {
 				rc = 2
 			}
-			s.SNSendP(snref.Regack(p.TopicID, p.MsgID, rc))
+			reply(snref.Regack(p.TopicID, p.MsgID, rc))
 		case snref.PUBLISH:
 			switch p.QoS {
 			case 1:
-				s.SNSendP(snref.Puback(p.TopicID, p.MsgID, 0))
+				reply(snref.Puback(p.TopicID, p.MsgID, 0))
 			case 2:
-				s.SNSendP(snref.MsgOnly(snref.PUBREC, p.MsgID))
+				reply(snref.MsgOnly(snref.PUBREC, p.MsgID))
 			}
 		case snref.PUBREL:
-			s.SNSendP(snref.MsgOnly(snref.PUBCOMP, p.MsgID))
+			reply(snref.MsgOnly(snref.PUBCOMP, p.MsgID))
 		}
 	}
 }
